@@ -1,6 +1,7 @@
 #!/bin/sh
 # usage: tools/tryseed.sh <patch> <PROP> [more PROPs...]  — applies the patch to /repo, runs the checks, undoes it
 p=$1; shift
+if [ -n "$(git -C /repo status --porcelain --untracked-files=no)" ]; then echo "refusing: /repo has uncommitted changes (commit them first)"; exit 4; fi
 git -C /repo apply --check "$p" || { echo "patch does not apply"; exit 3; }
 git -C /repo apply "$p"
 for id in "$@"; do
